@@ -147,13 +147,43 @@ pub fn check_case(c: &Case, rep: &mut Report) {
     if x224_level {
         sched = c.schedule.clone();
     }
-    let tr = FragmentingReader::new(stream, sched);
+    let tls_level = c.level == "tls";
+    let tr = FragmentingReader::new(if tls_level { Vec::new() } else { stream.clone() }, sched);
     let probe = tr.clone();
     let frames = c.frames.clone();
     let mut viol: Vec<(String, String)> = Vec::new();
+    let (record_chunk, raw_chunk) = (c.schedule.get(0).cloned().unwrap_or(usize::MAX), c.schedule.get(1).cloned().unwrap_or(usize::MAX));
+    let ends_for_tls = ends.clone();
 
     let res = mon::guarded(move || {
         let mut out: Vec<(Got, usize)> = Vec::new();
+        if tls_level {
+            // the same frames through a link upgraded to TLS: the stream is cut into TLS records of `record_chunk`
+            // plaintext bytes and the ciphertext is served `raw_chunk` bytes per read call
+            let d = crate::server::Duplex::new(crate::refs::proto::Profile::default());
+            d.with(|s| {
+                s.answer = false;
+                s.tls = Some(crate::tls::TlsServer::new(&crate::tls::identity(2), record_chunk % 2 == 0));
+                s.record_chunk = record_chunk;
+                s.read_chunk = raw_chunk;
+            });
+            let link = match Link::new(Stream::Raw(d.clone())).start_ssl(false) {
+                Ok(l) => l,
+                Err(e) => return Err(format!("TLS handshake with the reference server failed: {:?}", e)),
+            };
+            d.with(|s| s.push_bytes("frames", &stream, false));
+            let mut t = tpkt::Client::new(link);
+            for i in 0..frames.len() {
+                let g = match t.read() {
+                    Ok(tpkt::Payload::Raw(c)) => Got::Raw(c.into_inner()),
+                    Ok(tpkt::Payload::FastPath(f, c)) => Got::Fp(f, c.into_inner()),
+                    Err(e) => Got::Err(format!("{:?}", e)),
+                };
+                // what was consumed below TLS cannot be attributed to a frame: only the frames themselves are judged
+                out.push((g, ends_for_tls[i]));
+            }
+            return Ok(out);
+        }
         let link = Link::new(Stream::Raw(tr));
         let t = tpkt::Client::new(link);
         if x224_level {
@@ -379,6 +409,67 @@ pub fn make_case(class: u64, idx: u64, seed: u64, quick: bool) -> Case {
             }
             Case { level, frames, schedule, class: "header-splits" }
         }
+        5 => {
+            // long runs of tiny frames on one client (state carried from frame to frame), then stamped frames
+            let n = *r.pick(&[33usize, 34, 40, 64, 65, 100, 129, 257, 300, 1000]);
+            let plen = if xl { 3 + (idx % 3) as usize } else { (idx % 3) as usize };
+            let mut frames = Vec::new();
+            let kinds = idx / 3 % 4; // 0: tpkt only, 1: fast-path short, 2: fast-path long, 3: mixed
+            for i in 0..n {
+                let k = if kinds == 3 { r.below(3) } else { kinds };
+                frames.push(match k {
+                    0 => Frame::tpkt(0, payload_for(&mut r, plen, xl)),
+                    1 => Frame::fp(if i % 2 == 0 { 0 } else { 0x40 }, false, r.bytes(if xl { plen - 3 } else { plen })),
+                    _ => Frame::fp(0x80, true, r.bytes(if xl { plen - 3 } else { plen })),
+                });
+            }
+            frames.push(Frame::tpkt(0, stamp(1)));
+            frames.push(Frame::fp(0, false, stamp(2)));
+            let schedule: Vec<usize> = match r.below(3) {
+                0 => vec![1],
+                1 => vec![3],
+                _ => (0..r.range(1, 8)).map(|_| r.range(1, 40) as usize).collect(),
+            };
+            Case { level, frames, schedule, class: "long-runs-of-tiny-frames" }
+        }
+        6 => {
+            // over TLS: frames that straddle TLS records (one byte per record up to one record per stream), bodies
+            // larger than a record, and the ciphertext itself arriving in pieces
+            let n = r.range(1, 8) as usize;
+            let mut frames = Vec::new();
+            for i in 0..n {
+                let plen = match r.below(6) {
+                    0 => r.range(16380, 16400) as usize,
+                    1 => r.range(16384, 32000) as usize,
+                    2 => r.range(0, 8) as usize,
+                    3 => r.range(1400, 1600) as usize,
+                    _ => r.range(0, 300) as usize,
+                };
+                frames.push(match r.below(3) {
+                    0 => Frame::tpkt(0, r.bytes(plen)),
+                    1 => Frame::fp(0, false, r.bytes(plen.min(120))),
+                    _ => Frame::fp(0x80, true, r.bytes(plen)),
+                });
+                let _ = i;
+            }
+            frames.push(Frame::tpkt(0, stamp(1)));
+            let record_chunk = *r.pick(&[1usize, 2, 3, 4, 5, 7, 100, 1500, 16384, usize::MAX]);
+            let raw_chunk = *r.pick(&[1usize, 5, 29, 1000, usize::MAX, usize::MAX]);
+            // one byte per record over a large frame is slow: keep those streams small
+            if record_chunk < 8 || raw_chunk < 8 {
+                for f in frames.iter_mut() {
+                    if let Frame::Tpkt { payload, len, .. } = f {
+                        payload.truncate(600);
+                        *len = payload.len() as u16 + 4;
+                    }
+                    if let Frame::Fp { payload, len, long, .. } = f {
+                        payload.truncate(if *long { 600 } else { 120 });
+                        *len = (payload.len() + if *long { 3 } else { 2 }) as u16;
+                    }
+                }
+            }
+            Case { level: "tls", frames, schedule: vec![record_chunk, raw_chunk], class: "tls-records" }
+        }
         _ => {
             // random sequences of 1..50 frames, random schedule
             let n = r.range(1, 50) as usize;
@@ -482,6 +573,8 @@ pub fn run(cfg: &Cfg) -> Report {
         (2, if quick { 3 * boundary_lens(32767).len() as u64 + 1200 } else { 32768 * 2 }),
         (3, cfg.n(12 * 200, 12 * 5000)),
         (4, cfg.n(40_000, 3_000_000)),
+        (5, cfg.n(240, 12_000)),
+        (6, cfg.n(1_500, 100_000)),
     ];
     for (class, n) in plan {
         if !cfg.wants(class) {
@@ -508,7 +601,7 @@ pub fn replay(cfg: &Cfg, v: &Value) -> Report {
         return rep;
     }
     let c = Case {
-        level: if v["level"] == "x224" { "x224" } else { "tpkt" },
+        level: if v["level"] == "x224" { "x224" } else if v["level"] == "tls" { "tls" } else { "tpkt" },
         class: "replay",
         schedule: v["schedule"].as_array().unwrap().iter().map(|x| x.as_u64().unwrap_or(u64::MAX) as usize).collect(),
         frames: v["frames"].as_array().unwrap().iter().map(Frame::from_json).collect(),
